@@ -67,6 +67,7 @@ structure Env where
   projAlap : Bool := false
   onShift : Nat → Int → Bool       -- resource, slot
   projWork : Int → Bool            -- project scoreboard is free at slot (list semantics incl. wrap-around)
+  leaveMark : Nat → Int → Bool := fun _ _ => false   -- resource scoreboard slot carries leave bits
   dayIdx : Int → Int
   weekIdx : Int → Int
   res : Array ResD
@@ -161,7 +162,7 @@ def available (e : Env) (σ : St) (r : Nat) (i : Int) : Bool :=
   let s := σ.led.get r i
   let a := availSecs e.G s
   (e.resD r).leaf && e.onShift r i && decide (a > 0) &&
-  !(σ.marks.get r (e.norm i) && decide (a ≥ (e.G : Rat))) &&
+  !((σ.marks.get r (e.norm i) || e.leaveMark r (e.norm i)) && decide (a ≥ (e.G : Rat))) &&
   (resLimitIds e r).all (fun lid => limitOk e σ lid i none)
 
 /-- the state change of `ResourceScenario.book` (called only when `available`): returns effort gained -/
